@@ -347,7 +347,11 @@ def run(ctx: Ctx) -> None:
     ctx.ob("C04.R1", pdr, "the framing marker is examined before the receive loop can give up", not early, f"the loop can return at {early[:2]} with bytes buffered whose first byte was never examined: a device speaking the other framing is diagnosed late (or only as a socket error)")
     # -- key validation
     dk = noise.methods["_decode_noise_psk"]
-    expect(dk, "key not base64 -> invalid encryption key", lambda t: t == "except ValueError", "InvalidEncryptionKeyAPIError")
+    # the conversion of the decoder's ValueError may sit in the decoding function or around its call in the set-up function
+    sp_ = noise.methods["_setup_proto"]
+    conv_in_caller = any(isinstance(t, ast.Try) and any(isinstance(c, ast.Call) and dk in res.callees(sp_, c).funcs for b in t.body for c in ast.walk(b)) and any(h.type is not None and norm(h.type) == "ValueError" for h in t.handlers) for t in own_nodes(sp_.node))
+    has_own = any(test_text(dk, e) == "except ValueError" for e, b, s_, k, ctor in error_sites(ctx, dk))
+    expect(sp_ if (conv_in_caller and not has_own) else dk, "key not base64 -> invalid encryption key", lambda t: t == "except ValueError", "InvalidEncryptionKeyAPIError")
     expect(dk, "key not 32 bytes -> invalid encryption key", lambda t: t.replace(" ", "").startswith("len(") and t.replace(" ", "").endswith("!=32"), "InvalidEncryptionKeyAPIError")
     dec = [c for c in own_nodes(dk.node) if isinstance(c, ast.Call) and norm(c.func) in ("binascii.a2b_base64", "base64.b64decode")]
     ctx.ob("C04.R1", dk, "the configured key is what gets decoded and returned", len(dec) == 1 and norm(inline(dk, dec[0].args[0])) == "self._noise_psk" and any(isinstance(n, ast.Return) and norm(inline(dk, n.value)) == norm(inline(dk, dec[0])) for n in own_nodes(dk.node)), "")
